@@ -586,6 +586,63 @@ def reentrant_optional_fields(rep, r, tier):
     return n
 
 
+import itertools as _it  # noqa: E402
+
+_SEQ = _it.count(100)
+_FACTORY_CALLS = []
+
+
+@dataclass
+class Ticket:
+    ident: int
+    number: int = field(default_factory=lambda: next(_SEQ))
+    bag: list = field(default_factory=lambda: [next(_SEQ)])
+    stamp: str = field(default_factory=lambda: _FACTORY_CALLS.append(1) or f"s{len(_FACTORY_CALLS)}")
+
+
+@dataclass
+class Event:
+    ident: int
+    tag: str = field(default="x", kw_only=True)      # declared second, last in __init__
+    retries: int = 3
+    priority: int = 7
+
+
+def factories_and_orders(rep):
+    """(a) a default factory is called once for each loaded object that omits the field - also when it is a lambda without a
+    closure whose result happens to have a literal; (b) a model whose field declaration order differs from its __init__
+    order (a kw_only field declared before positional ones) with a skipped optional parameter: every value still reaches
+    its own parameter"""
+    from adaptix import DebugTrail, Retort, name_mapping
+    n = 0
+    for mode in DebugTrail:
+        rt = Retort(debug_trail=mode)
+        del _FACTORY_CALLS[:]
+        objs = [rt.load({"ident": i}, Ticket) for i in range(3)]
+        n += 3
+        numbers = [o.number for o in objs] + [o.bag[0] for o in objs]
+        if len(set(numbers)) != 6 or len(_FACTORY_CALLS) != 3 or len({o.stamp for o in objs}) != 3 or any(a.bag is b.bag for a in objs for b in objs if a is not b):
+            rep.violation("factory:called-per-object", "property-violated",
+                          {"what": "three loads that omit fields with default factories: every object must get a fresh result of each "
+                                   "factory (the factories count their calls)", "mode": mode.name, "objects": repr(objs),
+                           "stamp_factory_calls": len(_FACTORY_CALLS)})
+        for skip, data, want in ((["retries"], {"ident": 1, "priority": 50, "tag": "t"}, Event(1, tag="t", retries=3, priority=50)),
+                                 (["retries"], {"ident": 1, "priority": 50}, Event(1, retries=3, priority=50)),
+                                 (["priority"], {"ident": 1, "retries": 9, "tag": "t"}, Event(1, tag="t", retries=9, priority=7)),
+                                 (["tag"], {"ident": 1, "retries": 9, "priority": 8}, Event(1, retries=9, priority=8)),
+                                 ([], {"ident": 1, "priority": 8}, Event(1, priority=8))):
+            n += 1
+            try:
+                got = Retort(debug_trail=mode, recipe=[name_mapping(Event, skip=skip)] if skip else []).load(data, Event)
+            except Exception as e:  # noqa: BLE001
+                got = f"raises {type(e).__name__}: {str(e)[:80]}"
+            if got != want:
+                rep.violation("call:field-order-vs-parameter-order", "property-violated",
+                              {"what": f"Event(ident, retries=3, priority=7, *, tag='x') with tag DECLARED second, skip={skip}: loading "
+                                       f"{data} gives {got!r}, the constructor called with the loaded values gives {want!r}", "mode": mode.name})
+    return n
+
+
 def run(rep, tier, seed):
     from adaptix import DebugTrail, Retort, name_mapping
     from adaptix._internal.code_tools.utils import get_literal_expr
@@ -681,7 +738,7 @@ def run(rep, tier, seed):
                     direct_oracle(rep, retort, cls, names, flds, data, text, obj, info)
                 if len(samples) < 3 and stats["loads"] % 97 == 0:
                     samples.append(info)
-    stats["reentrant_loads"] = reentrant_optional_fields(rep, r, tier)
+    stats["reentrant_loads"] = reentrant_optional_fields(rep, r, tier) + factories_and_orders(rep)
     ev2 = CoqEval(PID + "b", "From AV Require Import Model.Ctor Model.CtorShow.", "(fun c => show_load (fst c) (snd c))", shard=150)
     for idx, got in ev2.compare(ccases):
         rep.violation(f"call-model:{meta[idx]['model_kind']}:{classify_call(meta[idx], got)}", "model-disagrees",
